@@ -77,6 +77,7 @@ def run(c):
     r3(c)
     r4(c)
     r5(c)
+    r6(c)
 
 
 def r1(c, readers, n_logic):
@@ -309,3 +310,32 @@ def r5(c):
         srcs = {norm(o) for k, o in pv.origins(x.args[1], through_calls=False) if k in ("attr", "other", "param")}
         c.check("C16.R5", not extra, repo.loc(m, x), "_read_old_new_hw/hw-as-given", f"the hardware handed to _read_device_config comes through {extra}: a model given with --hw is reduced "
                 "(e.g. to its vendor), so model-conditional rules (%if hw....) and logic are evaluated for another hardware than in device mode", key_text="hw-reduced")
+
+
+def r6(c):
+    repo = c.repo
+    c.rule("C16.R6", "the file workers compute the diff / the patch for every pair of configuration files they are given: in file_diff_worker and file_patch_worker the call of "
+                     "_read_old_new_diff_patch is reached whenever the pair is not a pair of directories — no further shortcut (byte-identical files, equal texts, equal trees). "
+                     "Equal inputs do not mean an empty patch: logic functions may emit commands from unchanged rows (C16.R1's set U), and the device front end has no such shortcut")
+    m = repo.module(API)
+    n = 0
+    for q in ("file_diff_worker", "file_patch_worker"):
+        fn = repo.func(API, q)
+        c.count("functions")
+        gm = GuardMap(fn)
+        calls = [x for x in calls_in(fn) if call_name(x).split(".")[-1] == "_read_old_new_diff_patch"]
+        if not calls:
+            # the work may be delegated once more; follow one level of same-module helpers
+            for x in calls_in(fn):
+                r_ = repo.resolve_call(m, x)
+                if r_ and isinstance(r_[2], ast.FunctionDef) and r_[0] is m and any(call_name(y).split(".")[-1] == "_read_old_new_diff_patch" for y in calls_in(r_[2])):
+                    calls.append(x)
+        if not calls:
+            raise AnchorError(f"{q}: the call of _read_old_new_diff_patch not found")
+        for x in calls:
+            n += 1
+            f = gm.formula(x, G.GuardEnv())
+            extra = sorted(a for a in G.atoms(f) if "isdir" not in a)
+            c.check("C16.R6", not extra, repo.loc(m, x), f"{q}/always-computed", f"the diff/patch of a file pair is computed only under {G.show(f)}: pairs for which [{', '.join(extra)[:120]}] "
+                    "decides otherwise are skipped, while the device front end would still emit the commands the logic functions derive from unchanged rows", key_text="shortcut")
+    c.floor("C16.R6", "file worker computations", n, 2)
